@@ -65,8 +65,10 @@ def run(chk):
     n3 = c26.sign_rules(chk, fx, 'C01-R3')
     chk.floor('declared numeric operator rows', n3, 20)
     # ---- R5: the delimiters of a string literal
-    chk.rule('C01-R5', 'a string literal loses exactly its own delimiters: in ValueObj::from_str the delimiter stripped at the end is decided by the one stripped at the start (one '
-                       'flag), not read again from the text — the lexer has already unescaped `\\"`, so a single-quoted literal ending in two escaped quotes looks like a closing `"""`')
+    chk.rule('C01-R5', 'a string literal loses exactly its own delimiters: in ValueObj::from_str the delimiter stripped at the end is decided by what the caller knows about the token '
+                       '(a flag / the token kind), not read again from the text: the lexer has already unescaped the escaped quotes, so a single-quoted literal ending in two of them looks '
+                       'like a closing triple quote. (The two ends cannot simply be paired inside from_str: the parser closes the pieces of an interpolated triple-quoted string with a '
+                       'single quote.)')
     VALF = 'crates/erg_compiler/ty/value.rs'
     fs = [f_ for f_ in fx.fns(VALF) if T.norm(f_['path']) == 'ValueObj::from_str']
     if chk.need(len(fs) == 1, 'ValueObj::from_str not found'):
